@@ -470,6 +470,7 @@ func (c *Client) Load(ctx context.Context, h backend.Handle, length int, offset 
 						ob = ob[:length]
 					}
 					rd = bytes.NewReader(append([]byte(nil), ob...))
+					c.S.Sim.Count("fault:load-misdirected")
 					break
 				}
 				fallthrough
